@@ -767,7 +767,7 @@ Theorem range_step : forall m row rg entries,
   exists ty1 ty2 b2 m',
     range_rule (row_type r row) (rhs_of (r_b r) row) rg = Some (ty1, ty2, b2) /\
     add_range m (row, rg) = Ok m' /\
-    let new := fresh_row_name (S (List.length (r_a r))) (r_a r) (row +++ "_") in
+    let new := fresh_row_name (S (S (List.length (r_a r)))) (r_a r) (m_obj m) (row +++ "_") in
     let r' := m_rows m' in
     lookup new (r_a r') = Some entries /\
     rhs_of (r_b r') new = b2 /\
@@ -777,7 +777,7 @@ Proof.
   intros m row rg entries r Hl Hr Hty.
   pose proof (row_type_in_set r row Hty) as Hin.
   unfold add_range. fold r. apply qeqb_neq in Hr. rewrite Hr, Hl.
-  set (new := fresh_row_name (S (List.length (r_a r))) (r_a r) (row +++ "_")).
+  set (new := fresh_row_name (S (S (List.length (r_a r)))) (r_a r) (m_obj m) (row +++ "_")).
   destruct (row_type r row) eqn:T; [congruence| | |]; cbn [range_rule].
   - destruct (qltb 0 rg).
     + eexists RG, RL, _, _. split; [reflexivity|]. split; [reflexivity|].
